@@ -2,6 +2,7 @@
 package c12
 
 import (
+	"encoding/base64"
 	"bytes"
 	"crypto/sha256"
 	"fmt"
@@ -24,7 +25,7 @@ import (
 
 func TestMain(m *testing.M) {
 	harness.Property("C12",
-		"case = one operation {ProcessInbound of a parsed message carrying the Mid header, GetInboundAnswer of a proposal, SetDeferred, SetSent with a file pre-placed where the joined path resolves} x one identifier from a hostile grammar (.., ../x, ../../x, a/../../b, absolute, out/../.., empty, 1..4 KiB, non-ASCII, NUL, backslashes, trailing dots/slashes, random mixtures of such segments; benign alphanumerics as control) x header-name spelling x extra hostile header x send-only; run by the mboxop helper (chroot'ed into the scratch tree) in a fresh tree base/s/d1/d2/mbox with decoy files and sibling directories on every level. Oracle: recursive snapshot (path, type, mode, size, mtime, inode, SHA-256, link target) of everything except mbox/ is identical before and after. Non-trivial = identifier with a separator, a dot-dot segment, an absolute or the empty form; distinct by hash(op, identifier, header spelling, extra header).",
+		"case = one operation {ProcessInbound of a parsed message carrying the Mid header, GetInboundAnswer of a proposal, SetDeferred, SetSent with a file pre-placed where the joined path resolves} x one identifier from a hostile grammar (.., ../x, ../../x, a/../../b, absolute, out/../.., empty, 1..4 KiB, non-ASCII, NUL, backslashes, trailing dots/slashes, random mixtures of such segments; a fifth of them wrapped as RFC 2047 Q/B encoded-words or percent-encoded; benign alphanumerics as control) x header-name spelling x extra hostile header x send-only; run by the mboxop helper (chroot'ed into the scratch tree) in a fresh tree base/s/d1/d2/mbox with decoy files and sibling directories on every level. Oracle: recursive snapshot (path, type, mode, size, mtime, inode, SHA-256, link target) of everything except mbox/ is identical before and after. Non-trivial = identifier with a separator, a dot-dot segment, an absolute or the empty form, or an encoded form of a hostile identifier; distinct by hash(op, identifier, header spelling, extra header).",
 		"the helper's exit status and the operation's error value are not judged (SetSent ends the process when the rename fails)",
 		"identifiers reach ProcessInbound the way a remote's do: as the Mid field of message bytes parsed by fbb.Message.ReadFrom; bytes that do not parse are counted (helper:parse_err) and judged like any other case",
 	)
@@ -330,6 +331,7 @@ var named = []string{
 	"a/../../b", "a/../../../x", "/etc/x", "/x", "/tmp/../x", "//x", "out/../..", "out/../../x", "../out/x", "../sent/A1", "../../in/x", "../../mbox2/in/x",
 	"", " ", ".", "/", "./x", "x/", "x/.", "x/..", "x.", "x..", "../", "../x/", "..\\..\\x", "..\\x", "a\\..\\..\\b", "../../x\x00", "\x00", "x\x00/../../y",
 	"../../æøå", "æ/../../x", "\xff\xfe/../../x", "../../decoy", "../../A1", "A1", "A1/../../../x", "ABCDEF123456", "x",
+	"=?utf-8?q?..=2F..=2Fescaped?=", "=?utf-8?b?Li4vLi4vZXNjYXBlZA==?=", "=?iso-8859-1?q?=2E=2E=2F=2E=2E=2Fx?=", "=?utf-8?q?=2Fs=2Fx?=",
 	"../../x.b2f", "../../escaped.txt\x00", "....//....//x", "..//..//x", ".../x", "%2e%2e/%2e%2e/x", "..%2f..%2fx",
 }
 
@@ -390,12 +392,52 @@ func genMID(t *rapid.T) ([]byte, string) {
 	}
 }
 
+// encodeMID wraps raw in an encoding that contains no path separator itself.
+func encodeMID(raw []byte, kind string) []byte {
+	switch kind {
+	case "q", "q-latin1":
+		cs := "utf-8"
+		if kind == "q-latin1" {
+			cs = "iso-8859-1"
+		}
+		var b strings.Builder
+		b.WriteString("=?" + cs + "?q?")
+		for _, c := range raw {
+			if (c >= 'A' && c <= 'Z') || (c >= 'a' && c <= 'z') || (c >= '0' && c <= '9') || c == '.' {
+				b.WriteByte(c)
+			} else {
+				fmt.Fprintf(&b, "=%02X", c)
+			}
+		}
+		b.WriteString("?=")
+		return []byte(b.String())
+	case "b":
+		return []byte("=?utf-8?b?" + base64.StdEncoding.EncodeToString(raw) + "?=")
+	default:
+		var b strings.Builder
+		for _, c := range raw {
+			if c == '/' || c == '.' || c == '\\' || c < 0x20 || c >= 0x7f {
+				fmt.Fprintf(&b, "%%%02x", c)
+			} else {
+				b.WriteByte(c)
+			}
+		}
+		return []byte(b.String())
+	}
+}
+
 var ops = []string{"process_inbound", "get_inbound_answer", "set_deferred", "set_sent"}
 
 func genCase(t *rapid.T) Case {
 	c := Case{MidKey: "Mid"}
 	c.Op = rapid.SampledFrom([]string{"process_inbound", "process_inbound", "process_inbound", "get_inbound_answer", "set_deferred", "set_sent", "set_sent"}).Draw(t, "op")
 	c.MID, c.Family = genMID(t)
+	// the same hostile identifiers in the encodings a "helpful" decoding step would undo before the name is
+	// used (the mailbox decodes RFC 2047 words in subjects and attachment names, URLs are percent-decoded)
+	if c.Family != "benign" && c.Family != "long" && rapid.IntRange(0, 4).Draw(t, "encoded") == 0 {
+		c.MID = encodeMID(c.MID, rapid.SampledFrom([]string{"q", "q-latin1", "b", "b", "pct"}).Draw(t, "encoding"))
+		c.Family += "+encoded"
+	}
 	if c.Op == "process_inbound" {
 		c.MidKey = rapid.SampledFrom([]string{"Mid", "Mid", "Mid", "MID", "mid", "mId"}).Draw(t, "midkey")
 		c.Extra = rapid.SampledFrom([]string{"", "", "", "X-FilePath: ../../x.b2f", "X-FilePath: /s/x.b2f", "X-Unread: ../../x", "File: 0 ../../x", "X-P2POnly: true", "Mid: ../../x", "Subject: ../../x"}).Draw(t, "extra")
@@ -454,6 +496,10 @@ func account(c Case, o outcome) {
 	}
 	harness.Eval()
 	cls, nt := midClasses(c.MID)
+	if strings.HasSuffix(c.Family, "+encoded") {
+		// an encoded identifier is non-trivial when the identifier it encodes is (it was drawn from the hostile grammar)
+		cls, nt = append(cls, "encoded(rfc2047-word or percent)"), true
+	}
 	harness.Label(cls...)
 	harness.Label("op:"+c.Op, "family:"+c.Family, "helper:"+strings.SplitN(helperClass(o.res), "(", 2)[0])
 	if o.escapes {
